@@ -272,6 +272,12 @@ def find_like(ex, s, sub, start, end, st, reverse=False):
 def bytes_method(ex, recv, name, args, kwargs, st):
     s = recv.z
     cls = type(recv)
+    cp = getattr(recv, "codepoint", None)
+    if cp is not None and name in ("isupper", "islower"):
+        # chr(v).isupper(): str semantics (Latin-1 for v < 256); larger code points are outside the table
+        ex.raise_if(st, z3.Or(cp < 0, cp > 255), "Unsupported", "str.isupper()/islower() beyond Latin-1 is not modelled")
+        ex.assumed.add("chr(v).isupper()/islower() for v < 256: table read from the running CPython")
+        return VBool(latin1_pred(name, cp))
     if name in ("find", "rfind", "index"):
         sub = args[0]
         if isinstance(sub, VInt):
@@ -657,6 +663,31 @@ def sf_called(ex, node, st):
     return VBool(z3.Or(*alts) if alts else z3.BoolVal(False))
 
 
+def latin1_pred(which, z):
+    """chr(v).isupper() / .islower() for 0 <= v < 256, table read from the running CPython."""
+    vals = [c for c in range(256) if getattr(chr(c), which)()]
+    ranges, start, prev = [], None, None
+    for c in vals:
+        if start is None:
+            start = prev = c
+        elif c == prev + 1:
+            prev = c
+        else:
+            ranges.append((start, prev))
+            start = prev = c
+    if start is not None:
+        ranges.append((start, prev))
+    return z3.Or(*[z3.And(z >= a, z <= b) if a != b else z == a for a, b in ranges])
+
+
+def sf_latin1_upper(ex, node, st):
+    return VBool(latin1_pred("isupper", ex.eval(node.args[0], st).z))
+
+
+def sf_latin1_lower(ex, node, st):
+    return VBool(latin1_pred("islower", ex.eval(node.args[0], st).z))
+
+
 def sf_matches(ex, node, st):
     """matches(PATTERN, text): text is in L(PATTERN°) - the language of the real pattern constant, look-arounds erased."""
     from . import regex2smt as R2
@@ -733,6 +764,8 @@ SPEC_FORMS = {
     "hi": sf_hi,
     "alloc": sf_alloc,
     "matches": sf_matches,
+    "latin1_upper": sf_latin1_upper,
+    "latin1_lower": sf_latin1_lower,
     "called": sf_called,
     "matches_group": sf_matches_group,
     "unhexlify": sf_unhexlify,
